@@ -657,6 +657,60 @@ theorem pipe_lock_discipline {U T C : Nat} (hU : 0 < U) {s s' : Pipeline.Sys} (h
   let i := Pipeline.reachable_inv hU h
   ⟨Pipeline.step_frame s s' l i hs, Pipeline.step_private s s' l i hs⟩
 
+/-- **`pipe_wait_conditions_guarded` (reads).** The conditions of the `while (…) pthread_cond_wait(…)` loops - loader: "no buffer on
+    the recycling stack" / "`inbox[u]` still full"; unpacker: "`inbox[u]` empty and not EOD" / "`outbox[u]` still full"; `Read`:
+    "`outbox[u]` empty and not EOD" with `u = nchunk % n_unpackers` - are functions of the acting thread's private variables and
+    of the shared fields guarded by the mutexes the step holds: two states that agree on those (`AgreeOn (held s l)`) but differ
+    arbitrarily in every other shared field give the same held set and the same condition (the locality theorems below extend this to
+    every read of a step). -/
+theorem pipe_wait_conditions_guarded (s t : Pipeline.Sys) (l : Pipeline.Label) (h : Pipeline.AgreeOn (Pipeline.held s l) s t) :
+    Pipeline.held t l = Pipeline.held s l ∧
+    (l = .loader → Pipeline.loaderBlocked t = Pipeline.loaderBlocked s) ∧
+    (∀ u, l = .unpacker u → Pipeline.unpBlocked t u = Pipeline.unpBlocked s u) ∧
+    ((∃ c, l = .read c) ∨ l = .readWake → Pipeline.readBlocked t = Pipeline.readBlocked s) :=
+  Pipeline.wait_condition_guarded s t l h
+
+/-- **`pipe_lane_local` (reads and writes).** A step neither reads nor writes any box of a lane other than the one its critical
+    section works on (`Pipeline.actsOn s l`: the lane of `inbox_mutex[u]` / `outbox_mutex[u]` it holds; none for thread-local steps
+    and for the recycling stack): overwriting the WHOLE lane `v` - `inbox[v]`, `inbox_eod[v]`, `outbox[v]`, `outbox_eod[v]`, even
+    unpacker `v`'s private state - with arbitrary contents `a` before the step gives the same result as overwriting it after the
+    step. So what another thread does to lane `v` under lane `v`'s mutexes can neither influence nor be disturbed by the step. -/
+theorem pipe_lane_local (s : Pipeline.Sys) (l : Pipeline.Label) (v : Nat) (a : Pipeline.Lane) (hv : v < s.lanes.length)
+    (h : Pipeline.actsOn s l ≠ some v) :
+    Pipeline.step (s.setLane v a) l = (Pipeline.step s l).map (·.setLane v a) :=
+  Pipeline.step_lane_local s l v a hv h
+
+/-- **`pipe_recycling_nchunk_local` (reads and writes).** The recycling stack is read and written only by steps holding
+    `recycling_mutex`, the consumer-shared counter `nchunk` only by steps holding `nchunk_mutex`: every other step commutes with
+    an arbitrary change of the field (for `nchunk`: while no consumer sleeps inside `Read` - a sleeping consumer keeps
+    `nchunk_mutex`, so nobody else can change the counter then; the model's `pthread_cond_signal(&outbox_cv[u])` consults it only
+    to locate that sleeper). With `pipe_lane_local`, `pipe_wait_conditions_guarded`, the write frame of `pipe_lock_discipline`
+    and `pipe_half_lane_local` this is the read side of the lock discipline. -/
+theorem pipe_recycling_nchunk_local (s : Pipeline.Sys) (l : Pipeline.Label) :
+    (∀ R, Pipeline.Mutex.recycling ∉ Pipeline.held s l →
+        Pipeline.step (s.setRecycling R) l = (Pipeline.step s l).map (·.setRecycling R)) ∧
+    (∀ n, Pipeline.Mutex.nchunk ∉ Pipeline.held s l → s.reader = none →
+        Pipeline.step (s.setNchunk n) l = (Pipeline.step s l).map (·.setNchunk n)) :=
+  ⟨fun R h => Pipeline.step_recycling_local s l R h, fun n h hr => Pipeline.step_nchunk_local s l n h hr⟩
+
+/-- **`pipe_half_lane_local` (reads and writes).** Inside the lane `u` its critical section works on, a step that holds
+    `inbox_mutex[u]` only (loader putting a chunk / setting EOD, unpacker taking a chunk) neither reads nor writes `outbox[u]` /
+    `outbox_eod[u]`, and a step that holds `outbox_mutex[u]` only (unpacker delivering, `Read`) neither reads nor writes
+    `inbox[u]` / `inbox_eod[u]`: it commutes with an arbitrary change of the half it does not hold. Together with
+    `pipe_lane_local` (other lanes), `pipe_recycling_nchunk_local` and the write frame: EVERY access of a step to a shared field
+    of `ESL_DSQDATA` - read or write - is to a field guarded by a mutex the step holds. -/
+theorem pipe_half_lane_local (s : Pipeline.Sys) (l : Pipeline.Label) (u : Nat) (hu : u < s.lanes.length)
+    (ha : Pipeline.actsOn s l = some u) :
+    (∀ ob oe, Pipeline.Mutex.outbox u ∉ Pipeline.held s l →
+        Pipeline.step (s.pokeOut u ob oe) l = (Pipeline.step s l).map (·.pokeOut u ob oe)) ∧
+    (∀ ib ie, Pipeline.Mutex.inbox u ∉ Pipeline.held s l →
+        Pipeline.step (s.pokeIn u ib ie) l = (Pipeline.step s l).map (·.pokeIn u ib ie)) :=
+  Pipeline.step_half_lane_local s l u hu ha
+
+/-- non-vacuity: with 2 unpackers the loader's put of chunk 0 works on lane 0, so lane 1 may hold anything -/
+example : ∃ s, Pipeline.run (Pipeline.Sys.create 2 3 2) [.loader, .loader] = some s ∧ Pipeline.actsOn s .loader = some 0 ∧
+    1 < s.lanes.length := ⟨_, rfl, by decide, by decide⟩
+
 /-- non-vacuity of `pipe_lock_discipline`: the loader's third step (putting chunk 0 into inbox 0) holds exactly `inbox_mutex[0]`,
     a consumer's `Read` holds `nchunk_mutex` and the outbox mutex of the lane it reads, creating a chunk holds nothing -/
 example : Pipeline.held (Pipeline.Sys.create 2 3 2) .loader = [] ∧
